@@ -498,25 +498,36 @@ impl<T: Qcow2IoOps> Qcow2Dev<T> {
         let _flush_lock = self.flush_lock.lock().await;
 
         log::debug!("flush_meta: entry");
-        loop {
-            // refcount is usually small size & continuous, so simply
-            // flush all
-            self.flush_refcount().await?;
+        // Clear the flag before looking for dirty meta, not after: whatever
+        // gets dirty while this flush runs sets it again, and it stays set.
+        // Clearing at the end would lose the mark of an operation that
+        // dirtied meta after the pass had looked at it.
+        self.mark_need_flush(false);
+        let res = async {
+            loop {
+                // refcount is usually small size & continuous, so simply
+                // flush all
+                self.flush_refcount().await?;
 
-            // read lock prevents update on l1 table, meantime
-            // normal read and cache-hit write can go without any
-            // problem
-            let l1 = &*self.l1table.read().await;
+                // read lock prevents update on l1 table, meantime
+                // normal read and cache-hit write can go without any
+                // problem
+                let l1 = &*self.l1table.read().await;
 
-            let done = self
-                .flush_meta_generic(l1, &self.l2cache, |off| self.l2_slice_key_of_l1_off(off))
-                .await?;
-            if done {
-                self.mark_need_flush(false);
-                break;
+                let done = self
+                    .flush_meta_generic(l1, &self.l2cache, |off| self.l2_slice_key_of_l1_off(off))
+                    .await?;
+                if done {
+                    break;
+                }
             }
+            Ok(())
+        }
+        .await;
+        if res.is_err() {
+            self.mark_need_flush(true);
         }
         log::debug!("flush_meta: exit");
-        Ok(())
+        res
     }
 }
